@@ -40,6 +40,7 @@ func init() {
 			"The back end is a model with a committed head, snapshot workspaces and optimistic commits; the concurrent writer does a correct read-modify-write of the manifest. The seed only varies image, candidate name, directories, timestamp and whether the depot starts empty or with 2 manifest entries. " +
 			"Oracle over the call log: attempts <= max(retries,0)+1; attempt k+1 only if attempt k did not commit, its last back-end error was retriable and RetriableError answered true; every operation of attempt k is on the workspace obtained in attempt k and never on a destroyed one; a manifest write is preceded by a manifest read from the same workspace; Destroy exactly once per failed attempt that obtained a workspace; nil result <=> every back end accepted a commit; Result exactly once with that commit after it, never without a commit; committed manifest keeps every entry that the writer or an earlier run committed. " +
 			"Appended audit dimensions (same checker, each submission judged on its own call log): (i) option combinations in the quick tier: snapshot mode, snapshot mode with an SVSM image, snapshot mode on two back ends; (ii) budgets at the limits of the integer types (math.MinInt.., -(2^32)+k, -(2^31)-1, -65535, -255: one attempt allowed, scripts go on for three; 2^31.., math.MaxInt: chains of 0..6 retriable failures) through both entry points; (iii) kept values: 3-5 submissions in a row through ONE endorse.Context, ONE context around it, one or two back-end values (Context.VCS / VCSs[1] / VCSs[2]) and one change function, the caller changing CommitRetries, candidate, image, timestamp and entry point in between, PRNG-drawn scripts; the back-end model keeps its head, so every manifest entry committed by an earlier submission must survive, and a workspace obtained in an earlier submission counts as stale; (iv) lockstep groups: 2-3 independent submissions in flight in one process, a PRNG-driven scheduler gives the turn at every back-end operation (exactly one runs at a time, the interleaving is a function of the seed). " +
+			"History dimensions (hist.go, appended after all of the above; same checker): (v) ALL scripts over {ok; get / read#1..4 / write#1..3 / chmod#1..2 / commit failing retriably or permanently; a TryCommit that LANDS on the head and is then answered with a retriable or permanent error (lost acknowledgement); genuine conflict} x {nobody; somebody else commits another entry; somebody else commits THE IDENTICAL entry (same digest, path, create time) before the attempt} for CommitRetries in {-1,0,1} (thorough {-2..2}) plus a 2-operation alphabet for CommitRetries=2 (thorough 3), each x {without, with --overwrite}, the head starting with 2 resp. 3 manifest entries; (vi) resubmission sequences: 2-5 submissions through ONE endorse.Context / context / one or two back-end values where the caller submits the same candidate, image and timestamp again, or changes only the timestamp, only the candidate or only the image, with and without --overwrite, PRNG-drawn scripts including landed-but-unacknowledged commits and the twin writer. " +
 			"non-trivial = runs with at least one failed attempt or one concurrent commit; distinct = (entry, mode, retries, attempts made, how it ended, concurrent commits seen, genuine conflicts seen) cells",
 		Assumptions: []string{
 			"negative budgets are read as 'no retries' (one attempt); stopping early is not judged (the property says 'at most') but the run is inconclusive unless, for every budget, some script was observed to use exactly max(retries,0)+1 attempts",
@@ -49,7 +50,9 @@ func init() {
 			"CommitRetries == math.MinInt is run but not judged (const judgeMinIntBudget in extra.go): on the unchanged tree `CommitRetries - tries` wraps around there and the loop retries for as long as failures are retriable; counted as observed-but-gated/...",
 			"kept values: submissions of one sequence use different images and candidate names, so no submission legitimately rewrites another one's manifest entry (that is C13's subject); which back end a reused Context submits to after the caller changes Context.VCS is not judged",
 			"lockstep: submissions that are in flight together share nothing but the process (own Context, own back-end values); sharing one endorse.Context between goroutines is not exercised (VirtualFirmware writes Context.VCS)",
-			"fault positions are per attempt: n-th call of a kind inside the attempt; an operation the code never reaches cannot fail, the oracle therefore judges the logged answers, not the script",
+			"a TryCommit that lands on the head but is answered with an error counts as a FAILED commit (that is all the caller can know): success may only be reported after a TryCommit that answered with a commit, and Result records that one; an attempt that finds its entry on the head already is not exempt from this",
+		"history dimensions: entries at the submission's own path or with its own digest may be rewritten (C13's subject); a resubmission without --overwrite is expected to be refused by the repository and is only judged for honesty, bounds and clean-up",
+		"fault positions are per attempt: n-th call of a kind inside the attempt; an operation the code never reaches cannot fail, the oracle therefore judges the logged answers, not the script",
 		},
 		ShardsQuick: 16, ShardsThor: 16, TimeoutS: 600, TimeoutThor: 3000, Run: run,
 	})
@@ -124,12 +127,22 @@ type job struct {
 	dim  string // "" | option-combination | extreme-budget
 	snap bool   // snapshot mode although the mode text is not exactly "snapshot"
 	svsm bool   // an SVSM image is submitted with the firmware (snapshot mode writes two signatures)
+
+	// history dimensions (hist.go); zero elsewhere
+	overwrite bool // the caller allows existing endorsement files to be overwritten (--overwrite)
+	initial   int  // > 0: the depot starts with exactly this many manifest entries (instead of the PRNG's 0 or 2)
 }
 
 func (j job) String() string {
 	s := fmt.Sprintf("%s mode=%s CommitRetries=%d", j.entry, j.mode, j.retries)
 	for i, sc := range j.scripts {
 		s += fmt.Sprintf(" vcs%d=%v", i, sc)
+	}
+	if j.overwrite {
+		s += " --overwrite"
+	}
+	if j.initial > 0 {
+		s += fmt.Sprintf(" head-starts-with-%d-entries", j.initial)
 	}
 	if j.cancel != nil {
 		s += fmt.Sprintf(" context-done(%s)@%v back-ends-%s-it", map[bool]string{false: "Canceled", true: "DeadlineExceeded"}[j.deadline], j.cancel,
@@ -370,7 +383,8 @@ func run(c *core.Ctx) {
 		c.End(i)
 	}
 	c.Max("scripts-enumerated-in-tier", int64(len(js)))
-	runAudit(c, w, ncase, fl)
+	next := runAudit(c, w, ncase, fl)
+	runHistory(c, w, next, fl)
 	if c.Only >= 0 {
 		return // a replay decides by its violations only
 	}
@@ -387,6 +401,9 @@ func run(c *core.Ctx) {
 	for _, n := range auditFloors {
 		c.Floor(n, fl[n])
 	}
+	for _, n := range historyFloors {
+		c.Floor(n, fl[n])
+	}
 }
 
 func runJob(c *core.Ctx, w *world, ci, k int, j job, r *rand.Rand, fl map[string]bool) {
@@ -396,6 +413,9 @@ func runJob(c *core.Ctx, w *world, ci, k int, j job, r *rand.Rand, fl map[string
 	outDir := []string{"", "release", "a/b"}[r.IntN(3)]
 	initial := []int{0, 2}[r.IntN(2)]
 	ts := time.Unix(1700000000+int64(r.IntN(1<<20)), 0)
+	if j.initial > 0 {
+		initial = j.initial
+	}
 	snapDir, imgName := "", ""
 	if j.mode == "snapshot" || j.snap {
 		snapDir, imgName = []string{"snap", "snap/x"}[r.IntN(2)], "fw.fd"
@@ -413,6 +433,7 @@ func runJob(c *core.Ctx, w *world, ci, k int, j job, r *rand.Rand, fl map[string
 	}
 	for vi, s := range j.scripts {
 		v := newVCS(vi, rec, s, outDir, snapDir, initial)
+		v.setOwn(outDir, cand, img, ts)
 		if j.cancel != nil {
 			v.ctl, v.honour = ctl, j.honour
 			if j.cancel.Attempt > 0 && j.cancel.VCS == vi {
@@ -440,7 +461,7 @@ func runJob(c *core.Ctx, w *world, ci, k int, j job, r *rand.Rand, fl map[string
 	default:
 		ec.VCS = vs[0]
 	}
-	ctx := endorse.NewContext(output.NewContext(keys.NewContext(base, w.kc), &output.Options{Quiet: true}), ec)
+	ctx := endorse.NewContext(output.NewContext(keys.NewContext(base, w.kc), &output.Options{Quiet: true, Overwrite: j.overwrite}), ec)
 	gen := j.String()
 	var rerr error
 	returned := false
@@ -576,7 +597,9 @@ func runJob(c *core.Ctx, w *world, ci, k int, j job, r *rand.Rand, fl map[string
 			c.Cell("%s|%s|retries=%d|%s|%s", j.entry, j.mode, j.retries, end, ctxCell)
 		}
 	}
-	if j.dim != "" {
+	if j.dim == "history" {
+		historyEvidence(c, j, vs, rec.log, per, rerr, fl)
+	} else if j.dim != "" {
 		extraEvidence(c, j, per, rerr, fl)
 	}
 	if k%997 == 0 {
